@@ -200,7 +200,7 @@ class Sched(object):
             return None
         co = frame.f_code
         if self.line_funcs == 'ALL':
-            if '/spyne/' in co.co_filename:
+            if '/spyne/' in co.co_filename and co.co_name != '<module>':
                 return self._local_trace
             return None
         fn = co.co_filename
@@ -218,20 +218,26 @@ class Sched(object):
 class LockProxy(object):
     """threading.Lock semantics under the baton: a thread that would block yields instead."""
 
-    def __init__(self, sched, acq_code, rel_code):
+    def __init__(self, sched, acq_code, rel_code, reentrant=False, silent=False):
         self.sched, self.owner = sched, None
         self.acq_code, self.rel_code = acq_code, rel_code
-        self.real = threading.Lock()
+        self.reentrant, self.depth, self.silent = reentrant, 0, silent
+        self.real = threading.RLock() if reentrant else threading.Lock()
 
     def acquire(self, blocking=True, timeout=-1):
         s = self.sched
         tid = s.me()
         if tid is None or not s.active:
             return self.real.acquire(blocking, timeout)
+        if self.reentrant and self.owner == tid:
+            self.depth += 1
+            return True
         s.point('acq', lock=self)
         assert self.owner is None, 'lock proxy: granted while held'
         self.owner = tid
-        s.record(self.acq_code)
+        self.depth = 1
+        if not self.silent:
+            s.record(self.acq_code)
         return True
 
     def release(self):
@@ -239,11 +245,16 @@ class LockProxy(object):
         tid = s.me()
         if tid is None or not s.active:
             return self.real.release()
-        s.point('rel')
         if self.owner != tid:
             raise RuntimeError('release of a lock not held')
+        if self.reentrant and self.depth > 1:
+            self.depth -= 1
+            return
+        s.point('rel')
         self.owner = None
-        s.record(self.rel_code)
+        self.depth = 0
+        if not self.silent:
+            s.record(self.rel_code)
 
     def locked(self):
         return self.owner is not None or self.real.locked()
@@ -299,7 +310,9 @@ class AccessScript(object):
         if cur is not None and kind != 'exit':
             if self.grant == cur:
                 self.grant = None
-                return cur           # its access was already scheduled
+                if cur in enabled:
+                    return cur       # its access was already scheduled
+                self.diverged = True  # ... but it is an acquire of a held lock
             self.parked.add(cur)
         while self.i < len(self.script):
             t = self.script[self.i]
@@ -546,7 +559,7 @@ def make_world(sched, instrument=True, validator='lxml', monitor=True):
     wsgi._mtx_build_interface_document = LockProxy(sched, ACQ_W, REL_W)
     if hasattr(in_prot, '_validation_lock'):
         in_prot._validation_lock = LockProxy(sched, ACQ_V, REL_V)
-    w.memo.lock = LockProxy(sched, M_ACQ, M_REL)
+    w.memo.lock = LockProxy(sched, M_ACQ, M_REL, reentrant=True)
     w.memo.memo = TracedMemo(sched)
     # caches
     in_prot._attrcache = TracedCache(sched, lambda c: w.keyid.get(c), encval)
@@ -574,28 +587,28 @@ def make_world(sched, instrument=True, validator='lxml', monitor=True):
     return w
 
 
-_UPDATE_PATCH = {}
+_UPDATE_ORIG = []
 
 def patch_update(sched):
     """DefaultAttrDict.update on an ALREADY PUBLISHED dictionary is a shared access"""
     from spyne.util import DefaultAttrDict
-    orig = dict.update
+    if not _UPDATE_ORIG:
+        _UPDATE_ORIG.append(DefaultAttrDict.update)
+    orig = _UPDATE_ORIG[0]
 
-    def update(self, *a, **kw):
+    def update(self, d):
         ent = sched.published.get(id(self)) if sched.active else None
         if ent is not None and ent[2] is self and sched.me() is not None:
             sched.point('acc')
             sched.record(C_UPD1 if ent[1] == 0 else C_UPD2, ent[0])
             ent[1] += 1
-        return orig(self, *a, **kw)
+        return orig(self, d)
     DefaultAttrDict.update = update
 
 def unpatch_update():
     from spyne.util import DefaultAttrDict
-    try:
-        del DefaultAttrDict.update
-    except AttributeError:
-        pass
+    if _UPDATE_ORIG:
+        DefaultAttrDict.update = _UPDATE_ORIG[0]
 
 
 # ------------------------------------------------------------------ requests
@@ -765,6 +778,10 @@ def run_once(reqs, chooser, lines=None, monitor=True):
     w = make_world(sched, monitor=monitor)
     w.docnames = {hashlib.md5(d0).hexdigest(): 0, hashlib.md5(d1).hexdigest(): 1}
     patch_update(sched)
+    from spyne.util.memo import memoize
+    saved_locks = [(m, m.lock) for m in memoize.registry if hasattr(m, 'lock')]
+    for m, _ in saved_locks:
+        m.lock = LockProxy(sched, 0, 0, reentrant=True, silent=True)
     try:
         bodies = {}
         for i, r in enumerate(reqs):
@@ -774,6 +791,381 @@ def run_once(reqs, chooser, lines=None, monitor=True):
         results = sched.run(bodies)
     finally:
         unpatch_update()
+        for m, lk in saved_locks:
+            m.lock = lk
     return {'reqs': reqs, 'results': results, 'trace': list(sched.trace), 'decisions': sched.decisions,
             'builds': sched.builds, 'abort': sched.abort, 'writes': sorted(set(sched.shared_writes)),
             'diverged': getattr(chooser, 'diverged', False)}
+
+
+# ------------------------------------------------------------------ exploration
+def explore(check, reqs, lines, bound, budget, monitor=True):
+    """iterative context bounding: every schedule with at most `bound` preemptions (a
+    preemption = switching away from a thread that could have continued), as far as the
+    budget goes; beyond the budget the frontier is sampled with check.rng"""
+    frontier = [([], 0)]
+    seen = set()
+    n = 0
+    while frontier and n < budget:
+        if len(frontier) > 1 and n > 0:
+            j = check.rng.randrange(len(frontier))
+            frontier[j], frontier[-1] = frontier[-1], frontier[j]
+        prefix, used = frontier.pop()
+        key = tuple(prefix)
+        if key in seen:
+            continue
+        seen.add(key)
+        r = run_once(reqs, Scripted(prefix), lines, monitor)
+        r['lines'] = lines_name(lines)
+        n += 1
+        yield r
+        dec = r['decisions']
+        chosen = [d[1] for d in dec]
+        for i in range(len(prefix), len(dec)):
+            en, ch, cur, kind = dec[i]
+            for alt in en:
+                if alt == ch:
+                    continue
+                cost = 1 if cur in en else 0
+                if used + cost <= bound:
+                    frontier.append((chosen[:i] + [alt], used + cost))
+
+def lines_name(lines):
+    return None if lines is None else ('ALL' if lines == 'ALL' else 'SHARED')
+
+def lines_of(name):
+    return None if name is None else ('ALL' if name == 'ALL' else LINE_FUNCS_SHARED)
+
+
+# ------------------------------------------------------------------ oracle
+# attribute writes to shared objects by request threads that are lazy, lock-guarded fills of
+# the WSDL builder (everything build_interface_document / build_schema_nodes assigns)
+ALLOWED_WRITES = {
+    ('Wsdl11', '_Wsdl11__wsdl'), ('Wsdl11', 'root_elt'), ('Wsdl11', 'root_tree'), ('Wsdl11', 'schema_dict'),
+    ('Wsdl11', 'url'), ('Wsdl11', 'service_elt'), ('Wsdl11', 'namespaces'), ('Wsdl11', 'complex_types'),
+}
+
+def req_kind(r):
+    return r[0]
+
+def canon_result(res):
+    """thread result -> comparable value (None when the thread did not finish)"""
+    if res is None or res[0] != 'ok':
+        return None
+    return res[1]
+
+def judge(check, run):
+    """the direct oracle on one scheduled run of the real code: exactly what C12 demands.
+    Returns the list of failure keys."""
+    reqs, results = run['reqs'], run['results']
+    kinds = '+'.join(sorted(req_kind(r) for r in reqs))
+    fails = []
+
+    def fail(key, what, extra=None):
+        rep = {'reqs': reqs, 'lines': run.get('lines'), 'decisions': [d[1] for d in run['decisions']],
+               'n_switch_points': len(run['decisions']),
+               'observed': {str(k): v for k, v in results.items()},
+               'expected_alone': {str(i): alone(r) for i, r in enumerate(reqs) if r[0] != 'idle'},
+               'builds': run['builds'], 'access_trace': run['trace'][:400]}
+        if extra:
+            rep.update(extra)
+        check.fail(key, what, rep)
+        fails.append(key)
+
+    if run['abort']:
+        if 'deadlock' in str(run['abort']):
+            fail('C12|deadlock|%s' % kinds, 'threads dead-lock: %s' % run['abort'])
+        else:
+            check.mismatch('scheduler', 'run aborted: %s (requests %r)' % (run['abort'], reqs))
+        return fails
+    if run['builds'] > 1:
+        fail('C12|wsdl|built-%d-times' % run['builds'],
+             'build_interface_document executed %d times for one WsgiApplication' % run['builds'])
+    for i, r in enumerate(reqs):
+        if r[0] == 'idle':
+            continue
+        res = results.get(i)
+        exp = alone(r)
+        if res is None or res[0] == 'abort':
+            continue
+        if res[0] == 'exc':
+            fail('C12|%s|exception:%s' % (r[0], res[1]),
+                 'request %r raised %s under concurrency (alone: %r): %s' % (r, res[1], exp, res[2][-300:]))
+            continue
+        got = res[1]
+        if got != exp:
+            if r[0] == 'wsdl':
+                what = ('?wsdl requester %d received %s instead of the sequential document'
+                        % (i, 'the document of a second build (no portType/service)' if got[2] == 1 else
+                           'status %s / a different document (md5 %s)' % (got[1], got[3])))
+                key = 'C12|wsdl|document-differs'
+            elif r[0] == 'validate':
+                what = ('schema validation fault of thread %d carries %s instead of its own error text (%r)'
+                        % (i, "the text 'None'" if got == ['fault', -1] else 'another request\'s error text (%r)' % (got,), exp))
+                key = 'C12|validate|fault-text-%s' % ('none' if got == ['fault', -1] else 'foreign' if got[0] == 'fault' else 'verdict')
+            elif r[0] == 'attrs':
+                what = 'get_cls_attrs caller %d observed attributes %r, alone it observes %r' % (i, got, exp)
+                key = 'C12|attrs|incomplete-attributes'
+            elif r[0] == 'memo':
+                what = 'memoize caller %d got %r, alone it gets %r' % (i, got, exp)
+                key = 'C12|memo|wrong-value'
+            else:
+                what = ('request %r (thread %d, racing with %s) got status %r body %r; alone it gets status %r body %r'
+                        % (r, i, kinds, got[1], got[3][:300], exp[1], exp[3][:300]))
+                key = 'C12|http:%s|response-differs|%s' % (r[0], 'status' if got[1] != exp[1] else 'body')
+            fail(key, what)
+    for (tid, cls, attr) in run['writes']:
+        if (cls, attr) not in ALLOWED_WRITES:
+            fail('C12|shared-write|%s.%s' % (cls, attr),
+                 'a request thread assigned %s.%s on an object shared by all threads (per-request data parked on '
+                 'a shared object, or an unguarded lazy fill)' % (cls, attr), {'writer_thread': tid})
+    return fails
+
+
+# ------------------------------------------------------------------ correspondence cases
+def coq_req(r):
+    k = r[0]
+    if k == 'wsdl':
+        return 'RWsdl'
+    if k == 'validate':
+        return '(RValidate %s %s)' % (gbool(r[1]), gz(r[2]))
+    if k == 'attrs':
+        return '(RAttrs %s)' % glist([gz(x) for x in r[1]])
+    if k == 'memo':
+        return '(RMemo %s)' % glist([gz(x) for x in r[1]])
+    return 'RIdle'
+
+def coq_resp(r, res):
+    v = canon_result(res)
+    if v is None:
+        return 'None'
+    k = r[0]
+    if k == 'wsdl':
+        return '(Some (PWsdl %s))' % ('(Some %s)' % gz(v[2]) if v[1].startswith('200') else 'None')
+    if k == 'validate':
+        if v[0] == 'valid':
+            return '(Some PValid)'
+        return '(Some (PFault %s))' % ('None' if v[1] == -1 else '(Some %s)' % gz(v[1]))
+    if k in ('attrs', 'memo'):
+        return '(Some (PVals %s))' % glist([gz(x) for x in v[1]])
+    return None
+
+def coq_case(run):
+    reqs = run['reqs']
+    model_threads = set(i for i, r in enumerate(reqs) if coq_req(r) != 'RIdle')
+    tr = [e for e in run['trace'] if e[0] in model_threads]
+    res = []
+    for i, r in enumerate(reqs):
+        if i in model_threads:
+            res.append('(%s, %s)' % (gz(i), coq_resp(r, run['results'].get(i))))
+    return '(%s, %s, %s, %s)' % (
+        glist([coq_req(r) for r in reqs]),
+        glist(['(%s, %s, %s, %s)' % tuple(gz(x) for x in e) for e in tr]),
+        glist(res), gz(run['builds']))
+
+IMPORTS = 'From SpyneV Require Import Base.Prelude C12.Model C12.Corr.'
+
+
+# ------------------------------------------------------------------ scenarios
+def unit_scenarios(check, tier):
+    rng = check.rng
+    sc = [
+        [['wsdl'], ['wsdl']],
+        [['wsdl'], ['wsdl'], ['wsdl']],
+        [['validate', False, 7], ['validate', True, 0]],
+        [['validate', False, 7], ['validate', False, 8]],
+        [['validate', False, 1], ['validate', True, 2], ['validate', False, 3]],
+        [['attrs', [1]], ['attrs', [1]]],
+        [['attrs', [1, 2, 1]], ['attrs', [2, 1]]],
+        [['attrs', [3]], ['attrs', [3]], ['attrs', [3, 3]]],
+        [['memo', [3, 3]], ['memo', [3]]],
+        [['memo', [1, 2]], ['memo', [2, 1]], ['memo', [2]]],
+        [['wsdl'], ['validate', False, 4], ['attrs', [1, 5]], ['memo', [2, 2]]],
+    ]
+    n = 4 if tier == 'quick' else 40
+    for _ in range(n):
+        k = rng.randint(2, 4)
+        s = []
+        for _ in range(k):
+            c = rng.random()
+            if c < 0.3:
+                s.append(['wsdl'])
+            elif c < 0.55:
+                s.append(['validate', rng.random() < 0.4, rng.randint(0, 9)])
+            elif c < 0.8:
+                s.append(['attrs', [rng.randrange(N_KEYS) for _ in range(rng.randint(1, 3))]])
+            else:
+                s.append(['memo', [rng.randrange(4) for _ in range(rng.randint(1, 3))]])
+        sc.append(s)
+    return sc
+
+def http_request(rng):
+    c = rng.random()
+    if c < 0.2:
+        return ['wsdl']
+    if c < 0.35:
+        return ['echo', rng.choice(['a', 'bb', 'x-y', 'zzz']), rng.randint(0, 99)]
+    if c < 0.45:
+        return ['add', rng.randint(-50, 50), rng.randint(0, 1000)]
+    if c < 0.55:
+        return ['boom', rng.choice(['A', 'B', 'C'])]
+    if c < 0.65:
+        return ['box', rng.choice(['ann', 'bob']), rng.randint(0, 3)]
+    if c < 0.75:
+        return ['count', rng.choice(['ann', 'bob']), [rng.randint(1, 9) for _ in range(rng.randint(0, 3))]]
+    if c < 0.87:
+        return ['invalid', rng.randint(0, 9)]
+    if c < 0.93:
+        return ['badint', rng.randint(0, 9)]
+    if c < 0.97:
+        return ['nomethod', rng.randint(0, 9)]
+    return ['garbage', rng.randint(0, 9)]
+
+def http_scenarios(check, tier):
+    rng = check.rng
+    sc = [
+        [['wsdl'], ['echo', 'a', 1]],
+        [['invalid', 1], ['echo', 'b', 2]],
+        [['invalid', 1], ['invalid', 2]],
+        [['box', 'ann', 2], ['count', 'bob', [1, 2]]],
+        [['boom', 'A'], ['add', 1, 2], ['wsdl']],
+        [['badint', 3], ['invalid', 4], ['echo', 'c', 3], ['wsdl']],
+    ]
+    n = 4 if tier == 'quick' else 40
+    for _ in range(n):
+        sc.append([http_request(rng) for _ in range(rng.randint(2, 4))])
+    return sc
+
+
+# ------------------------------------------------------------------ the check
+def handle(check, run, cases):
+    fails = judge(check, run)
+    tr = tuple(run['trace'])
+    check.count((json.dumps(run['reqs']), tr))
+    if not run['abort']:
+        cases.append((coq_case(run), 'reqs=%s lines=%s decisions=%s' % (
+            json.dumps(run['reqs']), run.get('lines'), ''.join(str(d[1]) for d in run['decisions'])[:200])))
+    return fails
+
+
+def run(check):
+    tier = check.tier
+    quick = tier == 'quick'
+    check.rule = ('one evaluation = one deterministic interleaving of 2..4 real threads on one fresh WsgiApplication '
+                  '(scheduler with one baton; switch points at every access to a modelled shared variable and, in the '
+                  'line-level passes, at every line/return event of the shared-state functions or of all of spyne/); '
+                  'systematic up to a preemption bound, then seeded random; distinct by (requests, global sequence of '
+                  'shared accesses with the values read and written)')
+    check.trusted = list(lib.COMMON_TRUSTED) + [
+        'the deterministic scheduler and the access hooks of harness/c12.py (attribute watchers installed by swapping '
+        '__class__ of the WsgiApplication/Wsdl11 instances, recording dictionaries for _attrcache and memoize.memo, a '
+        'proxy around the XMLSchema object, baton-aware lock proxies): they are trusted to report every access to the '
+        'modelled shared variables in the order it happened',
+        'CPython thread switching is modelled as: any interleaving of whole shared-variable accesses (finer than a '
+        'source line; C extension calls such as lxml validate() and etree.tostring() are atomic steps)',
+        'modelled, not verified: lxml XMLSchema.validate()/error_log, WeakKeyDictionary.get/__setitem__, dict '
+        '__contains__/get/__setitem__ as atomic reads/writes',
+    ]
+    check.assumptions = [
+        'model scope: handle_wsdl_request + Wsdl11.get/build_interface_document (document identity abstracted to the '
+        'number of earlier builds), ProtocolBase.get_cls_attrs, memoize.__call__ (non re-entrant use), '
+        'XmlDocument.__validate_lxml; _sortcache, cdict fills, memoize_ignore_none and the rest of the request path are '
+        'covered by the end-to-end oracle under the scheduler, not by a theorem',
+        'that no other per-request datum is parked on a shared object is monitored (attribute writes to application, '
+        'interface, protocol, transport and document-builder instances during scheduled runs), not proved',
+        'validate() releases the GIL inside libxml2; interleavings inside C calls are out of reach of the scheduler '
+        '(the repaired code holds a lock across validate()+error_log, which covers them; the pinned code does not)',
+        'the URL of all concurrent ?wsdl requests is the same (the document embeds the URL of the first requester)',
+    ]
+    check.regen([])
+    check.check_sources()
+    check.prove('Props.C12', THEOREMS)
+
+    oracle_docs()
+    cases = []
+    stats = {'runs': 0, 'access_level': 0, 'line_level': 0, 'http': 0, 'random_all_lines': 0, 'witness': 0,
+             'max_switch_points': 0, 'threads': {}}
+
+    def account(r, bucket):
+        stats['runs'] += 1
+        stats[bucket] += 1
+        stats['max_switch_points'] = max(stats['max_switch_points'], len(r['decisions']))
+        n = len(r['reqs'])
+        stats['threads'][n] = stats['threads'].get(n, 0) + 1
+
+    # 0. witnesses of the _refuted theorems, replayed as access-level schedules (must NOT
+    #    reproduce on the tree under test)
+    witnesses = [
+        ([['wsdl'], ['wsdl']], [0] * 7 + [1, 1] + [0] * 4 + [1] * 12),
+        ([['wsdl'], ['wsdl']], [0] * 6 + [1, 1] + [0] * 5 + [1] * 12),
+        ([['wsdl'], ['wsdl']], [0] * 5 + [1, 1] + [0] * 6 + [1] * 12),
+        ([['attrs', [1]], ['attrs', [1]]], [0, 0, 1, 1, 0, 0, 0]),
+        ([['attrs', [1]], ['attrs', [1]]], [0, 0, 0, 1, 1, 0, 0]),
+        ([['validate', False, 7], ['validate', True, 0]], [0, 1, 0, 0]),
+        ([['validate', False, 7], ['validate', False, 8]], [0, 1, 1, 0]),
+        ([['validate', False, 7], ['validate', True, 0]], [0, 0, 1, 0]),
+        ([['validate', False, 7], ['validate', False, 8]], [0, 0, 1, 1, 0]),
+    ]
+    for reqs, script in witnesses:
+        r = run_once(reqs, AccessScript(script))
+        r['lines'] = None
+        account(r, 'witness')
+        handle(check, r, cases)
+        check.sample({'witness_schedule': script, 'requests': reqs,
+                      'results': {str(k): canon_result(v) for k, v in r['results'].items()}, 'builds': r['builds']})
+
+    # 1. access-level systematic exploration of the model-tied scenarios
+    for reqs in unit_scenarios(check, tier):
+        bound = 2 if len(reqs) <= 2 else 1
+        if not quick:
+            bound += 1
+        budget = (150 if len(reqs) <= 2 else 80) if quick else 3000
+        for r in explore(check, reqs, None, bound, budget):
+            account(r, 'access_level')
+            handle(check, r, cases)
+
+    # 2. line-granularity exploration (sys.settrace line+return events inside the shared-state code)
+    for reqs in unit_scenarios(check, tier)[:11]:
+        budget = 40 if quick else 1500
+        for r in explore(check, reqs, LINE_FUNCS_SHARED, 1 if quick else 2, budget):
+            account(r, 'line_level')
+            handle(check, r, cases)
+
+    # 3. end-to-end WSGI requests (SOAP calls, faults, validation failures, ?wsdl) at line granularity
+    for reqs in http_scenarios(check, tier):
+        budget = 30 if quick else 600
+        for r in explore(check, reqs, LINE_FUNCS_SHARED, 1 if quick else 2, budget):
+            account(r, 'http')
+            handle(check, r, cases)
+        # randomized stress: switch points at EVERY line of every spyne/ function
+        for _ in range(6 if quick else 200):
+            r = run_once(reqs, RandomChooser(check.rng, check.rng.choice([0.002, 0.01, 0.05])), 'ALL')
+            r['lines'] = 'ALL'
+            account(r, 'random_all_lines')
+            handle(check, r, cases)
+
+    lib.correspond(check, 'schedules', IMPORTS, 'case', '(corr_ok Repaired)', cases,
+                   show='(corr_show Repaired)', shard=150)
+    lib.flush_correspondences(check)
+    check.extra['exploration'] = stats
+    return check.finish()
+
+
+def replay(check, path):
+    rep = json.load(open(path))
+    print(json.dumps({k: rep[k] for k in ('property', 'key', 'what')}, indent=1))
+    r = rep.get('replay', {})
+    if 'reqs' not in r:
+        print(json.dumps(r, indent=1)[:3000])
+        return 0
+    oracle_docs()
+    if r.get('lines') == 'ALL':
+        print('note: recorded under randomized all-lines stress; replaying the recorded decisions')
+    run = run_once(r['reqs'], Scripted(r['decisions']), lines_of(r.get('lines')))
+    run['lines'] = r.get('lines')
+    fails = judge(check, run)
+    print('observed now :', json.dumps({str(k): canon_result(v) for k, v in run['results'].items()})[:2000])
+    print('alone        :', json.dumps({str(i): alone(q) for i, q in enumerate(r['reqs'])})[:2000])
+    print('builds       :', run['builds'])
+    print('REPRODUCED' if rep['key'] in fails else 'not reproduced (failures now: %r)' % fails)
+    return 1 if rep['key'] in fails else 0
